@@ -33,10 +33,10 @@ import (
 func init() { vh.Register("CODECWORKER", runWorker) }
 
 type wreq struct {
-	ID     int                 `json:"id"`
-	Target string              `json:"target"`
-	Kind   string              `json:"kind"` // json query
-	Doc    []byte              `json:"doc,omitempty"`
+	ID     int    `json:"id"`
+	Target string `json:"target"`
+	Kind   string `json:"kind"` // json query
+	Doc    []byte `json:"doc,omitempty"`
 	Query  []wkv  `json:"query,omitempty"`
 }
 
@@ -150,7 +150,7 @@ func runWorker(cfg *vh.Config) error {
 // ---------------------------------------------------------------- parent side
 
 const (
-	maxHard     = 3           // hard failures (timeout / fatal / memory) before the run stops issuing requests
+	maxHard     = 3          // hard failures (timeout / fatal / memory) before the run stops issuing requests
 	maxRSSBytes = 1536 << 20 // resident memory a worker may reach while handling one request
 )
 
